@@ -10,11 +10,6 @@ import st_nodeacct
 LEVEL = "model_checking"
 
 KNOWN = [
-    {"signature": r"(C14_NodeIdle|C02_Exclusive) pipegpu Allocate/Add dgpu=idle\+\d,rel-\d dbase=0",
-     "what": "a fraction pod is ALLOCATED (bound) onto a GPU group whose only sharers are nominated (Pipelined): "
-             "EnoughIdleResourcesOnGpu takes the presence of the AllocatedSharedGPUsMemory key as 'the group has a device', but "
-             "unallocate/ConvertAllAllocatedToPipelined leave the key at 0; no device is taken from Idle, so Idle.gpu stays one "
-             "above the recomputed value and the same device can then be handed to a whole-GPU pod (C02_Exclusive)"},
     {"signature": r"C14_Node(Idle|Releasing|Marker) pipegpu \S+ dgpu=idle-\d,rel\+\d dbase=0",
      "what": "whole-device transfer Idle<->Releasing of shared GPU groups: the guards N < Idle+usedGPUs / N >= Idle+usedGPUs count "
              "nominated (Pipelined) whole-GPU pods and nominated-only groups as used devices -> Idle.gpu ends below the value "
